@@ -47,3 +47,432 @@ Lemma empty_key_refuted :
   /\ snd (spec_run empty_map w_empty_key) = [RSimple n_OK; RBulk v1]
   /\ keys_nonempty w_empty_key = false.
 Proof. vm_compute. repeat split; reflexivity. Qed.
+
+(** * Refinement: store with tombstones / expiry seconds  vs  abstract map *)
+Definition abs_entry (e : entry) : option sval :=
+  if e_del e then None else Some (e_val e, if e_exp e =? 0 then None else Some (e_exp e)).
+
+Definition abs (st : store) : smap :=
+  fun k => match find st k with Some e => abs_entry e | None => None end.
+
+Definition R (st : store) (m : smap) : Prop := forall k, abs st k = m k.
+
+Lemma R_init : R [] empty_map.
+Proof. intro k. reflexivity. Qed.
+
+Lemma tget_sget st m now k :
+  R st m -> sget m now k = match tget st now k with Some e => abs_entry e | None => None end.
+Proof.
+  intro HR. unfold sget, tget. rewrite <- (HR k). unfold abs.
+  destruct (find st k) as [e|]; [|reflexivity].
+  unfold abs_entry, dead, expired, live. destruct e as [v ex d]. cbn.
+  destruct d; [reflexivity|]. cbn.
+  destruct (ex =? 0) eqn:E0; cbn; [now rewrite ?E0|].
+  destruct (ex <=? now) eqn:E1; destruct (now <? ex) eqn:E2; cbn; rewrite ?E0; try reflexivity; lia.
+Qed.
+
+Lemma tget_live st now k e : tget st now k = Some e -> e_del e = false.
+Proof.
+  unfold tget. destruct (find st k) as [e'|]; [|discriminate]. unfold dead.
+  destruct (e_del e') eqn:E; cbn [orb]; [discriminate|]. destruct (expired (e_exp e') now); [discriminate|].
+  intro H; inversion H; subst; exact E.
+Qed.
+
+Lemma sget_some st m now k : R st m ->
+  (match sget m now k with Some _ => true | None => false end)
+  = (match tget st now k with Some _ => true | None => false end).
+Proof.
+  intro HR. rewrite (tget_sget st m now k HR). destruct (tget st now k) as [e|] eqn:E; [|reflexivity].
+  unfold abs_entry. now rewrite (tget_live _ _ _ _ E).
+Qed.
+
+Lemma put_R st m k e : R st m -> R (put st k e) (upd m k (abs_entry e)).
+Proof.
+  intros HR k'. unfold abs, put, upd. cbn [find]. destruct (bytes_eqb k' k); [reflexivity|]. apply HR.
+Qed.
+
+(** * int64 facts *)
+Lemma wrap64_small z : (min_int64 <= z <= max_int64)%Z -> wrap64 z = z.
+Proof.
+  unfold wrap64, min_int64, max_int64, two63, two64. intro H.
+  rewrite Z.mod_small by lia. lia.
+Qed.
+
+Lemma atoi_signed_range neg ds z : atoi_signed neg ds = Some z -> (min_int64 <= z <= max_int64)%Z.
+Proof.
+  unfold atoi_signed, min_int64, max_int64, two63, int64_bound. destruct ds; [discriminate|].
+  destruct (parse_digits 0 (b :: ds)) as [n|]; [|discriminate].
+  destruct neg.
+  - destruct (n <=? 9223372036854775808) eqn:E; [|discriminate]. intro H; inversion H; subst. lia.
+  - destruct (n <? 9223372036854775808) eqn:E; [|discriminate]. intro H; inversion H; subst. lia.
+Qed.
+
+Lemma atoi_range s z : atoi s = Some z -> (min_int64 <= z <= max_int64)%Z.
+Proof.
+  unfold atoi. destruct s as [|b s']; [discriminate|].
+  destruct (byte_eqb b MINUS); [apply atoi_signed_range|].
+  destruct (byte_eqb b PLUS); apply atoi_signed_range.
+Qed.
+
+(** * Backend operations against the abstract map *)
+Lemma nonempty_false k : negb (is_empty k) = true -> is_empty k = false.
+Proof. destruct k; [discriminate|reflexivity]. Qed.
+
+Lemma del_refines keys : forall st m now n,
+  R st m -> forallb (fun k => negb (is_empty k)) keys = true ->
+  exists st', b_del st now keys n = Some (st', snd (s_del m now keys n)) /\ R st' (fst (s_del m now keys n)).
+Proof.
+  induction keys as [|k ks IH]; intros st m now n HR Hk; cbn [b_del s_del].
+  - eexists; split; [reflexivity|exact HR].
+  - cbn [forallb] in Hk. apply andb_true_iff in Hk as [Hk1 Hk2]. rewrite (nonempty_false _ Hk1).
+    rewrite <- (sget_some st m now k HR).
+    assert (HR' : R (put st k tombstone) (upd m k None)) by (apply (put_R st m k tombstone HR)).
+    destruct (sget m now k); apply IH; assumption.
+Qed.
+
+Lemma mget_refines keys : forall st m now,
+  R st m -> forallb (fun k => negb (is_empty k)) keys = true ->
+  b_mget st now keys = Some (map (fun k => match sget m now k with Some (v, _) => Some v | None => None end) keys).
+Proof.
+  induction keys as [|k ks IH]; intros st m now HR Hk; cbn [b_mget map]; [reflexivity|].
+  cbn [forallb] in Hk. apply andb_true_iff in Hk as [Hk1 Hk2]. rewrite (nonempty_false _ Hk1).
+  rewrite (IH st m now HR Hk2). rewrite (tget_sget st m now k HR).
+  destruct (tget st now k) as [e|] eqn:E; [|reflexivity].
+  unfold abs_entry. now rewrite (tget_live _ _ _ _ E).
+Qed.
+
+Lemma exists_refines keys : forall st m now c,
+  R st m -> forallb (fun k => negb (is_empty k)) keys = true ->
+  b_exists st now keys c = Some (c + s_count m now keys)%Z.
+Proof.
+  induction keys as [|k ks IH]; intros st m now c HR Hk; cbn [b_exists s_count].
+  - f_equal. lia.
+  - cbn [forallb] in Hk. apply andb_true_iff in Hk as [Hk1 Hk2]. rewrite (nonempty_false _ Hk1).
+    rewrite (IH st m now _ HR Hk2). pose proof (sget_some st m now k HR) as Hs.
+    destruct (sget m now k); destruct (tget st now k); try discriminate; f_equal; lia.
+Qed.
+
+Lemma mset_refines kvs : forall st m,
+  R st m -> forallb (fun k => negb (is_empty k)) (map fst kvs) = true ->
+  exists st', b_mset st kvs = Some st' /\ R st' (s_mset m kvs).
+Proof.
+  induction kvs as [|[k v] kvs IH]; intros st m HR Hk; cbn [b_mset s_mset].
+  - eexists; split; [reflexivity|exact HR].
+  - cbn [map fst forallb] in Hk. apply andb_true_iff in Hk as [Hk1 Hk2]. rewrite (nonempty_false _ Hk1).
+    apply IH; [|exact Hk2].
+    apply (put_R st m k {| e_val := v; e_exp := 0; e_del := false |} HR).
+Qed.
+
+Lemma parse_int_safe_range v z : parse_int_safe v = Some z -> (min_int64 <= z <= max_int64)%Z.
+Proof.
+  unfold parse_int_safe. destruct (fields v).
+  - intro H; inversion H; subst. unfold min_int64, max_int64, two63. lia.
+  - apply atoi_range.
+Qed.
+
+Lemma counter_value_empty v : is_empty v = true -> counter_value v = Some 0%Z.
+Proof. destruct v; [reflexivity|discriminate]. Qed.
+
+Ltac finish_R st m k HR :=
+  match goal with
+  | |- R (put _ _ ?e) _ =>
+      let HP := fresh "HP" in
+      pose proof (put_R st m k e HR) as HP; unfold abs_entry in HP; cbn in HP;
+      repeat match goal with H : (_ =? 0) = _ |- _ => rewrite H in HP end; exact HP
+  end.
+
+Lemma incr_refines st m now k delta :
+  R st m -> negb (is_empty k) = true -> (min_int64 <= delta <= max_int64)%Z ->
+  let '(st', r) := do_incr st now k delta in
+  let '(m', r', q) := sem m now (CIncrBy k delta) in
+  r = r' /\ q = false /\ R st' m'.
+Proof.
+  intros HR Hk Hd. unfold do_incr, b_incrby, sem. rewrite (nonempty_false _ Hk).
+  rewrite (tget_sget st m now k HR).
+  destruct (tget st now k) as [e|] eqn:E.
+  - unfold abs_entry at 1 2. rewrite (tget_live _ _ _ _ E).
+    assert (Hcv : (if is_empty (e_val e) then Some 0%Z else parse_int_safe (e_val e)) = counter_value (e_val e)).
+    { destruct (is_empty (e_val e)) eqn:Ee; [now rewrite counter_value_empty | reflexivity]. }
+    rewrite Hcv.
+    destruct (counter_value (e_val e)) as [cur|] eqn:Ec; [|cbn; repeat split; auto].
+    assert (Hc : (min_int64 <= cur <= max_int64)%Z).
+    { unfold counter_value in Ec. apply (parse_int_safe_range (e_val e)). exact Ec. }
+    unfold in_int64, min_int64, max_int64, two63 in *.
+    repeat match goal with |- context [if ?b then _ else _] => destruct b eqn:? end;
+      cbn; try lia; repeat split; auto; try lia; finish_R st m k HR.
+  - unfold in_int64, min_int64, max_int64, two63 in *. cbn [Z.add].
+    repeat match goal with |- context [if ?b then _ else _] => destruct b eqn:? end;
+      cbn; try lia; repeat split; auto; try lia; finish_R st m k HR.
+Qed.
+
+(** * SET: expiry arithmetic and the option grammar *)
+Definition clock_bound : N := 4611686018427387904. (* 2^62 *)
+
+Lemma expire_agree opt num now :
+  (0 < num <= max_int64)%Z -> now < clock_bound ->
+  expire_at current opt num now = expiry_of opt num now.
+Proof.
+  intros Hn Hc. unfold expire_at, expiry_of, clock_bound in *. cbn [fix_expire current andb].
+  unfold max_int64, two63 in Hn.
+  assert (H1 : (max_int64 / ns_per_s = 9223372036)%Z) by reflexivity.
+  assert (H2 : (max_int64 / 1000000 = 9223372036854)%Z) by reflexivity.
+  rewrite H1, H2.
+  assert (Hto : forall z, (0 <= z < two64)%Z -> to_u64 z = Z.to_N z).
+  { intros z Hz. unfold to_u64. now rewrite Z.mod_small. }
+  unfold two64 in Hto.
+  destruct (name_is opt n_EX).
+  { destruct (9223372036 <? num)%Z eqn:E; [reflexivity|].
+    rewrite wrap64_small by (unfold min_int64, max_int64, two63, ns_per_s; lia).
+    unfold ns_per_s. rewrite Z.div_mul by lia. rewrite Hto by lia.
+    replace (Z.to_N (Z.of_N now + num)) with (now + Z.to_N num) by lia.
+    destruct (now + Z.to_N num <=? now) eqn:E1; [lia|].
+    destruct (now + Z.to_N num =? 0) eqn:E2; [lia|reflexivity]. }
+  destruct (name_is opt n_PX).
+  { destruct (9223372036854 <? num)%Z eqn:E; [reflexivity|].
+    rewrite wrap64_small by (unfold min_int64, max_int64, two63; lia).
+    unfold ns_per_s. change 1000000000%Z with (1000 * 1000000)%Z.
+    rewrite Z.div_mul_cancel_r by lia.
+    assert (Hq : (0 <= num / 1000 <= num)%Z).
+    { split; [apply Z.div_pos; lia | apply Z.div_le_upper_bound; lia]. }
+    rewrite Hto by lia.
+    replace (Z.to_N (Z.of_N now + num / 1000)) with (now + Z.to_N (num / 1000)) by lia.
+    destruct (now + Z.to_N (num / 1000) <=? now) eqn:E1.
+    - destruct (now + 1 =? 0) eqn:E2; [lia|]. f_equal. lia.
+    - destruct (now + Z.to_N (num / 1000) =? 0) eqn:E2; [lia|]. f_equal. lia. }
+  destruct (name_is opt n_EXAT).
+  { rewrite Hto by lia. reflexivity. }
+  assert (Hq : (0 <= num / 1000 <= num)%Z).
+  { split; [apply Z.div_pos; lia | apply Z.div_le_upper_bound; lia]. }
+  rewrite Hto by lia. reflexivity.
+Qed.
+
+Definition cond_of (nx xx : bool) : cond := if nx then CondNX else if xx then CondXX else CondNone.
+
+Definition opts_rel (o : set_opts) (c : cond) (exp : option N) : Prop :=
+  c = cond_of (so_nx o) (so_xx o) /\ so_nx o && so_xx o = false
+  /\ exp = (if so_has o then Some (so_exp o) else None)
+  /\ (if so_has o then so_exp o <> 0 else so_exp o = 0).
+
+Definition opts_agree (x : rerr + set_opts) (y : rerr + (cond * option N)) : Prop :=
+  match x, y with
+  | inl e, inl e' => e = e'
+  | inr o, inr (c, exp) => opts_rel o c exp
+  | _, _ => False
+  end.
+
+Lemma expiry_pos opt num now e : expiry_of opt num now = Some e -> (0 < num)%Z -> e <> 0.
+Proof.
+  unfold expiry_of, some_pos. intros H Hn.
+  destruct (name_is opt n_EX).
+  { destruct (9223372036 <? num)%Z; [discriminate|]. inversion H; subst. lia. }
+  destruct (name_is opt n_PX).
+  { destruct (9223372036854 <? num)%Z; [discriminate|]. inversion H; subst. lia. }
+  destruct (name_is opt n_EXAT).
+  { destruct (Z.to_N num =? 0) eqn:E; [discriminate|]. inversion H; subst. lia. }
+  destruct (Z.to_N (num / 1000) =? 0) eqn:E; [discriminate|]. inversion H; subst. lia.
+Qed.
+
+Lemma set_opts_agree now n : now < clock_bound -> forall opts o c exp,
+  (List.length opts <= n)%nat -> opts_rel o c exp ->
+  opts_agree (set_options current now opts o) (decode_set_opts now opts c exp).
+Proof.
+  intro Hc. induction n as [|n IH]; intros opts o c exp Hlen Hrel.
+  - destruct opts; [|cbn in Hlen; lia]. cbn. exact Hrel.
+  - destruct opts as [|a rest]; [cbn; exact Hrel|].
+    cbn [List.length] in Hlen. cbn [set_options decode_set_opts].
+    destruct Hrel as (Hcond & Hex & Hexp & Hz).
+    destruct (name_is (upper a) n_NX).
+    { destruct (so_xx o) eqn:Exx.
+      - subst c. unfold cond_of. destruct (so_nx o); [discriminate|]. reflexivity.
+      - assert (Hgo : opts_agree
+                 (set_options current now rest {| so_nx := true; so_xx := so_xx o; so_exp := so_exp o; so_has := so_has o |})
+                 (decode_set_opts now rest CondNX exp)).
+        { apply IH; [lia|]. unfold opts_rel. cbn. rewrite ?Exx. repeat split; auto. }
+        subst c. unfold cond_of. rewrite Exx in Hgo. destruct (so_nx o); exact Hgo. }
+    destruct (name_is (upper a) n_XX).
+    { destruct (so_nx o) eqn:Enx.
+      - subst c. unfold cond_of. reflexivity.
+      - assert (Hgo : opts_agree
+                 (set_options current now rest {| so_nx := so_nx o; so_xx := true; so_exp := so_exp o; so_has := so_has o |})
+                 (decode_set_opts now rest CondXX exp)).
+        { apply IH; [lia|]. unfold opts_rel. cbn. rewrite ?Enx. cbn. repeat split; auto. }
+        subst c. unfold cond_of. rewrite Enx in Hgo. destruct (so_xx o); exact Hgo. }
+    unfold is_expiry_opt.
+    destruct (name_is (upper a) n_EX || name_is (upper a) n_PX || name_is (upper a) n_EXAT || name_is (upper a) n_PXAT);
+      [|reflexivity].
+    destruct (so_has o) eqn:Ehas.
+    { subst exp. reflexivity. }
+    subst exp. destruct rest as [|numb rest']; [reflexivity|].
+    destruct (atoi numb) as [num|] eqn:Ea; [|reflexivity].
+    destruct (num <=? 0)%Z eqn:Epos; [reflexivity|].
+    pose proof (atoi_range _ _ Ea) as Hr.
+    rewrite expire_agree by (try exact Hc; lia).
+    destruct (expiry_of (upper a) num now) as [e|] eqn:Ee; [|reflexivity].
+    apply IH; [cbn [List.length] in Hlen; lia|].
+    unfold opts_rel. cbn. repeat split; auto. eapply expiry_pos; eauto. lia.
+Qed.
+
+(** * One command *)
+Lemma map_arr_elem l : map (arr_elem current) l = l.
+Proof. induction l as [|[b|] l IH]; cbn [map arr_elem fix_empty_value current]; now rewrite ?IH. Qed.
+
+Definition step_ok (st : store) (m : smap) (x : store * reply * bool) (y : smap * reply * bool) : Prop :=
+  let '(st', r, q) := x in let '(m', r', q') := y in r = r' /\ q = q' /\ R st' m'.
+
+Lemma set_refines st m now k v o c exp :
+  R st m -> negb (is_empty k) = true -> opts_rel o c exp ->
+  step_ok st m
+    (match b_set st now k v (so_nx o) (so_xx o) (so_exp o) with
+     | SetOk st' => (st', RSimple n_OK, false)
+     | SetCond => (st, RNil, false)
+     | SetEmptyKey => (st, RErr REmptyKey, false)
+     end)
+    (sem m now (CSet k v c exp)).
+Proof.
+  intros HR Hk (Hc & Hex & Hexp & Hz). unfold b_set, sem, step_ok. rewrite (nonempty_false _ Hk).
+  rewrite (sget_some st m now k HR).
+  assert (HP : R (put st k {| e_val := v; e_exp := so_exp o; e_del := false |}) (upd m k (Some (v, exp)))).
+  { pose proof (put_R st m k {| e_val := v; e_exp := so_exp o; e_del := false |} HR) as HP.
+    unfold abs_entry in HP. cbn in HP. subst exp.
+    destruct (so_has o); [destruct (so_exp o =? 0) eqn:E; [lia|exact HP] | rewrite Hz in *; exact HP]. }
+  subst c. unfold cond_of.
+  destruct (so_nx o), (so_xx o); try discriminate; cbn [orb andb negb];
+    destruct (tget st now k); cbn [negb]; repeat split; auto.
+Qed.
+
+Lemma exec_refines st m now args :
+  R st m -> now < clock_bound ->
+  forallb (fun k => negb (is_empty k)) (cmd_keys (decode now args)) = true ->
+  step_ok st m (execute current st now args) (spec_exec m now args).
+Proof.
+  intros HR Hc Hk. revert Hk. unfold spec_exec, decode, execute.
+  destruct args as [|a0 rest]; [intros _; cbn; repeat split; auto|].
+  set (cmd := upper a0).
+  destruct (name_is cmd n_PING).
+  { cbn [fix_ping current]. destruct rest as [|m1 [|m2 r]]; intros _; cbn; repeat split; auto. }
+  destruct (name_is cmd n_ECHO).
+  { destruct rest as [|m1 [|m2 r]]; intros _; cbn; repeat split; auto. }
+  destruct (name_is cmd n_GET).
+  { destruct rest as [|k [|k2 r]]; try (intros _; cbn; repeat split; auto; fail).
+    cbn [cmd_keys forallb]. intro Hk. apply andb_true_iff in Hk as [Hk _].
+    unfold b_get. rewrite (nonempty_false _ Hk). cbn [sem]. rewrite (tget_sget st m now k HR).
+    destruct (tget st now k) as [e|] eqn:E; cbn; [|repeat split; auto].
+    unfold abs_entry. rewrite (tget_live _ _ _ _ E). cbn. repeat split; auto. }
+  destruct (name_is cmd n_SET).
+  { destruct rest as [|k [|v opts]]; try (intros _; cbn; repeat split; auto; fail).
+    pose proof (set_opts_agree now (List.length opts) Hc opts
+                  {| so_nx := false; so_xx := false; so_exp := 0; so_has := false |} CondNone None
+                  (le_n _)) as Hag.
+    specialize (Hag ltac:(unfold opts_rel; cbn; repeat split; auto)).
+    destruct (set_options current now opts {| so_nx := false; so_xx := false; so_exp := 0; so_has := false |}) as [e|o];
+      destruct (decode_set_opts now opts CondNone None) as [e'|[c exp]]; cbn in Hag; try contradiction.
+    - subst e'. intros _. cbn. repeat split; auto.
+    - cbn [cmd_keys forallb]. intro Hk. apply andb_true_iff in Hk as [Hk _].
+      apply set_refines; assumption. }
+  destruct (name_is cmd n_DEL).
+  { destruct rest as [|k ks]; [intros _; cbn; repeat split; auto|].
+    cbn [cmd_keys]. intro Hk.
+    destruct (del_refines (k :: ks) st m now 0%Z HR Hk) as [st' [Hd HR']].
+    rewrite Hd. cbn [sem]. destruct (s_del m now (k :: ks) 0) as [m' n]. cbn in *. repeat split; auto. }
+  destruct (name_is cmd n_MGET).
+  { destruct rest as [|k ks]; [intros _; cbn; repeat split; auto|].
+    cbn [cmd_keys]. intro Hk. rewrite (mget_refines (k :: ks) st m now HR Hk), map_arr_elem.
+    cbn. repeat split; auto. }
+  destruct (name_is cmd n_MSET).
+  { destruct rest as [|x [|y r]].
+    - intros _. cbn. repeat split; auto.
+    - intros _. cbn. repeat split; auto.
+    - cbn [List.length]. 
+      replace ((S (S (S (List.length r))) <? 3)%nat) with false by (symmetry; apply PeanoNat.Nat.ltb_ge; lia).
+      cbn [orb]. destruct (Nat.even (S (S (List.length r)))) eqn:Eev; cbn [negb].
+      + cbn [cmd_keys]. intro Hk.
+        destruct (mset_refines (pairs_of (x :: y :: r)) st m HR Hk) as [st' [Hs HR']].
+        rewrite Hs. cbn. repeat split; auto.
+      + intros _. cbn. repeat split; auto. }
+  destruct (name_is cmd n_INCR).
+  { destruct rest as [|k [|k2 r]]; try (intros _; cbn; repeat split; auto; fail).
+    cbn [cmd_keys forallb]. intro Hk. apply andb_true_iff in Hk as [Hk _].
+    pose proof (incr_refines st m now k 1%Z HR Hk ltac:(unfold min_int64, max_int64, two63; lia)) as Hi.
+    destruct (do_incr st now k 1) as [st' r]. destruct (sem m now (CIncrBy k 1)) as [[m' r'] q].
+    destruct Hi as (H1 & H2 & H3). subst. cbn. repeat split; auto. }
+  destruct (name_is cmd n_DECR).
+  { destruct rest as [|k [|k2 r]]; try (intros _; cbn; repeat split; auto; fail).
+    cbn [cmd_keys forallb]. intro Hk. apply andb_true_iff in Hk as [Hk _].
+    pose proof (incr_refines st m now k (-1)%Z HR Hk ltac:(unfold min_int64, max_int64, two63; lia)) as Hi.
+    destruct (do_incr st now k (-1)) as [st' r]. destruct (sem m now (CIncrBy k (-1))) as [[m' r'] q].
+    destruct Hi as (H1 & H2 & H3). subst. cbn. repeat split; auto. }
+  destruct (name_is cmd n_INCRBY).
+  { destruct rest as [|k [|d [|x r]]]; try (intros _; cbn; repeat split; auto; fail).
+    destruct (atoi d) as [delta|] eqn:Ea; [|intros _; cbn; repeat split; auto].
+    cbn [cmd_keys forallb]. intro Hk. apply andb_true_iff in Hk as [Hk _].
+    pose proof (incr_refines st m now k delta HR Hk (atoi_range _ _ Ea)) as Hi.
+    destruct (do_incr st now k delta) as [st' r]. destruct (sem m now (CIncrBy k delta)) as [[m' r'] q].
+    destruct Hi as (H1 & H2 & H3). subst. cbn. repeat split; auto. }
+  destruct (name_is cmd n_DECRBY).
+  { destruct rest as [|k [|d [|x r]]]; try (intros _; cbn; repeat split; auto; fail).
+    destruct (atoi d) as [delta|] eqn:Ea; [|intros _; cbn; repeat split; auto].
+    cbn [fix_decrby current andb].
+    destruct (delta =? min_int64)%Z eqn:Emin; [intros _; cbn; repeat split; auto|].
+    pose proof (atoi_range _ _ Ea) as Hr.
+    assert (Hneg : (min_int64 <= - delta <= max_int64)%Z) by (unfold min_int64, max_int64, two63 in *; lia).
+    rewrite (wrap64_small _ Hneg).
+    cbn [cmd_keys forallb]. intro Hk. apply andb_true_iff in Hk as [Hk _].
+    pose proof (incr_refines st m now k (- delta)%Z HR Hk Hneg) as Hi.
+    destruct (do_incr st now k (- delta)) as [st' r]. destruct (sem m now (CIncrBy k (- delta))) as [[m' r'] q].
+    destruct Hi as (H1 & H2 & H3). subst. cbn. repeat split; auto. }
+  destruct (name_is cmd n_EXISTS).
+  { destruct rest as [|k ks]; [intros _; cbn; repeat split; auto|].
+    cbn [cmd_keys]. intro Hk. rewrite (exists_refines (k :: ks) st m now 0%Z HR Hk).
+    cbn [sem Z.add]. cbn. repeat split; auto. }
+  destruct (name_is cmd n_QUIT); intros _; cbn; repeat split; auto.
+Qed.
+
+(** * Command sequences *)
+Definition clocks_ok (cmds : list (N * list bytes)) : bool :=
+  forallb (fun c => fst c <? clock_bound) cmds.
+
+Theorem run_refines cmds : forall st m,
+  R st m -> clocks_ok cmds = true -> keys_nonempty cmds = true ->
+  snd (run current st cmds) = snd (spec_run m cmds)
+  /\ R (fst (run current st cmds)) (fst (spec_run m cmds)).
+Proof.
+  induction cmds as [|[now args] cs IH]; intros st m HR Hc Hk; [cbn; auto|].
+  cbn [clocks_ok forallb fst] in Hc. apply andb_true_iff in Hc as [Hc1 Hc2]. apply N.ltb_lt in Hc1.
+  cbn [keys_nonempty forallb fst snd] in Hk. apply andb_true_iff in Hk as [Hk1 Hk2].
+  pose proof (exec_refines st m now args HR Hc1 Hk1) as Hs.
+  cbn [run spec_run]. unfold step_ok in Hs.
+  destruct (execute current st now args) as [[st' r] q].
+  destruct (spec_exec m now args) as [[m' r'] q'].
+  destruct Hs as (Hr & Hq & HR'). subst r' q'.
+  destruct q; [cbn; auto|].
+  specialize (IH st' m' HR' Hc2 Hk2).
+  destruct (run current st' cs) as [st'' rs]. destruct (spec_run m' cs) as [m'' rs'].
+  cbn in *. destruct IH as [H1 H2]. subst. auto.
+Qed.
+
+Corollary refines_from_empty cmds :
+  clocks_ok cmds = true -> keys_nonempty cmds = true ->
+  snd (run current [] cmds) = snd (spec_run empty_map cmds)
+  /\ forall k, abs (fst (run current [] cmds)) k = fst (spec_run empty_map cmds) k.
+Proof. intros Hc Hk. apply (run_refines cmds [] empty_map R_init Hc Hk). Qed.
+
+(** The hypotheses hold on a non-trivial sequence (SET with expiry, INCR, DEL, MGET). *)
+Definition sample_cmds : list (N * list bytes) :=
+  [(1700000000, [n_SET; k1; of_string "41"%string; n_EX; of_string "100"%string; n_NX]);
+   (1700000001, [n_INCR; k1]); (1700000002, [n_MGET; k1; v1]); (1700000200, [n_GET; k1]);
+   (1700000200, [n_DEL; k1; k1])].
+Example refines_hypotheses_satisfiable :
+  clocks_ok sample_cmds = true /\ keys_nonempty sample_cmds = true
+  /\ snd (run current [] sample_cmds)
+     = [RSimple n_OK; RInt 42; RArr [Some (of_string "42"%string); None]; RNil; RInt 0].
+Proof. vm_compute. repeat split; reflexivity. Qed.
+
+Lemma replies_eqb_eq a : forall b, replies_eqb a b = true <-> a = b.
+Proof.
+  induction a as [|x a IH]; intros [|y b]; cbn [replies_eqb]; split; intro H; try congruence; try discriminate.
+  - apply andb_true_iff in H as [H1 H2]. apply bytes_eqb_eq in H1. apply IH in H2. congruence.
+  - inversion H; subst. apply andb_true_iff. split; [apply bytes_eqb_refl | now apply IH].
+Qed.
+
+Lemma conforms_b_spec cmds obs : conforms_b cmds obs = true <-> conforms cmds obs.
+Proof. unfold conforms_b, conforms. apply replies_eqb_eq. Qed.
